@@ -4,7 +4,7 @@ work/stim/<spec digest>/ — they depend on the specification only, not on the c
 import os, re, json, collections
 from concurrent.futures import ThreadPoolExecutor
 import prim
-from tlc import run_tlc, tlc_ok, printed, spec_digest, WORK, ToolError
+from tlc import atomic_dump, run_tlc, tlc_ok, printed, spec_digest, WORK, ToolError
 
 BIG = 1_000_000_000
 
@@ -54,7 +54,7 @@ def corpus_sets(r, maxcard=11):
     if len(cases) != st["distinct"]:
         raise ToolError(f"{mod}: {len(cases)} CASE lines for {st['distinct']} states")
     res = {"repr": r, "cases": cases, "stats": st, "U": U, "far": far}
-    json.dump(res, open(cache, "w"))
+    atomic_dump(res, cache)
     return res
 
 
@@ -97,7 +97,7 @@ def iter_graph(n):
         E.append([idx[a], op, k, idx[b]])
     E = sorted(set(map(tuple, E)))
     res = {"n": n, "nodes": nodes, "edges": [list(e) for e in E], "stats": st}
-    json.dump(res, open(cache, "w"))
+    atomic_dump(res, cache)
     return res
 
 
